@@ -412,7 +412,7 @@ def read_output(text, functions_):
     return ast
 
 
-def check_pair(in_conds, out_texts, digits, stats, kind="cond"):
+def check_pair(in_conds, out_texts, digits, stats, kind="cond", junction="and"):
     """in_conds: list of ASTs (conditions, or a single expression if kind == 'expr');
     out_texts: list of strings.  Returns (verdict, detail, witness)"""
     fs = functions()
@@ -436,6 +436,8 @@ def check_pair(in_conds, out_texts, digits, stats, kind="cond"):
             out_asts.append(ast)
     except BadOutput as e:
         return "violation", str(e), None
+    if junction == "or":
+        return conj_equiv(m, ins, outs, stats, None, junction="or")
     if len(ins) == 1 and len(outs) == 1:
         (op, l, r), (op2, l2, r2) = ins[0], outs[0]
         if op != op2:
@@ -528,19 +530,20 @@ def nra_equal(m, e1, e2, stats):
     return "inconclusive", "NRA unknown", None
 
 
-def conj_equiv(m, ins, outs, stats, note):
+def conj_equiv(m, ins, outs, stats, note, junction="and"):
     s = z3.Solver()
     s.set("timeout", 15000)
     for d in m.dens:
         s.add(d != 0)
-    cin = z3.And([rel(*c) for c in ins]) if ins else z3.BoolVal(True)
-    cout = z3.And([rel(*c) for c in outs]) if outs else z3.BoolVal(True)
+    J, unit = (z3.And, True) if junction == "and" else (z3.Or, False)
+    cin = J([rel(*c) for c in ins]) if ins else z3.BoolVal(unit)
+    cout = J([rel(*c) for c in outs]) if outs else z3.BoolVal(unit)
     t0 = time.time()
     r = s.check(cin != cout)
     stats["queries"] += 1
     stats["solver_s"] += time.time() - t0
     if r == z3.unsat:
-        return "held", "NRA: conjunctions equivalent for all valuations", None
+        return "held", f"NRA: {'con' if junction == 'and' else 'dis'}junctions equivalent for all valuations", None
     if r == z3.sat:
         return "violation", (note or "conditions not equivalent"), model_point(s.model(), m)
     return "inconclusive", "NRA unknown", None
@@ -602,6 +605,18 @@ def run_case(case):
                 raise BadOutput("precondition does not print as (and ...)")
             out = [sexpr.render(c) for c in ast[1:]]
             verdict = check_pair(conds, out, dd, stats)
+        elif entry == "precondition_or":
+            # the same conditions as members of a disjunction: an equality is an assumption only under 'and'
+            p = Precondition("or")
+            for t in trees:
+                p.add_condition(t)
+            text = p.print(should_simplify=True, **kw) if d is not None else p.print(should_simplify=True)
+            dd = d if d is not None else 2
+            ast = sexpr.read(text)
+            if ast[0] != "or":
+                raise BadOutput("disjunction does not print as (or ...)")
+            out = [sexpr.render(c) for c in ast[1:]]
+            verdict = check_pair(conds, out, dd, stats, junction="or")
         else:
             raise ValueError(entry)
         res["output"] = out
@@ -692,6 +707,8 @@ def cases_for(tier, seed):
             cs = [linear_equality(rng, pool) for _ in range(neq)] + ineqs
             NICE[0] = False
             cases.append({"entry": "precondition", "conds": cs, "digits": 4 + (i % 3)})
+            if neq and i % 20 >= 17:
+                cases.append({"entry": "precondition_or", "conds": cs, "digits": 4 + (i % 3)})
     # default-digits path (the module-level default read from NUMERIC_PRECISION)
     for c, entry in fixed[:3] + fixed[4:6]:
         cases.append({"entry": entry, "conds": [c], "digits": None})
